@@ -72,11 +72,12 @@ func (t *Target) build(name string, ref proto.Message) (interface{}, error) {
 
 // nilOneMapValue replaces the value of one entry of a message-valued map of the Go message by a nil
 // pointer — the generated code treats such an entry as absent — and removes the entry from the reference
-// value, so that both still denote the same message.
-func nilOneMapValue(m interface{}, ref *dynamicpb.Message) bool {
+// value, so that both still denote the same message. It returns which entry that was (nil: none changed):
+// the model of the generated code is asked about the value WITH the nil-valued entry.
+func nilOneMapValue(m interface{}, ref *dynamicpb.Message) *nilMapEntry {
 	v := reflect.ValueOf(m)
 	if v.Kind() != reflect.Ptr || v.IsNil() || v.Elem().Kind() != reflect.Struct {
-		return false
+		return nil
 	}
 	v = v.Elem()
 	for i := 0; i < v.NumField(); i++ {
@@ -121,9 +122,9 @@ func nilOneMapValue(m interface{}, ref *dynamicpb.Message) bool {
 		}
 		ref.Mutable(fd).Map().Clear(mk)
 		f.SetMapIndex(k, reflect.Zero(f.Type().Elem()))
-		return true
+		return &nilMapEntry{fd: fd, key: mk}
 	}
-	return false
+	return nil
 }
 
 // nilOneListElement replaces one element of a repeated message field of the Go message by a nil pointer and
@@ -176,8 +177,11 @@ func (rn *runner) marshalCase(t *Target, name string, ref *dynamicpb.Message, la
 	if rn.r.Chance(1, 3) {
 		tweak(rn.r, reflect.ValueOf(m), 0)
 	}
-	if rn.r.Chance(1, 5) && nilOneMapValue(m, ref) {
-		label += " (one message-valued map entry set to nil)"
+	var nilEnt *nilMapEntry
+	if rn.r.Chance(1, 5) {
+		if nilEnt = nilOneMapValue(m, ref); nilEnt != nil {
+			label += " (one message-valued map entry set to nil)"
+		}
 	}
 	// (not for Gogo: its runtime treats a nil element of a repeated message field as an invalid message —
 	// "repeated field has nil element" — so such a value is not a message of that runtime)
@@ -205,10 +209,10 @@ func (rn *runner) marshalCase(t *Target, name string, ref *dynamicpb.Message, la
 			Violation("C04", "marshal", "marshal-panic/"+sigOf(ref), "generated Marshal() panicked", desc, "no panic", p)
 		}
 		Count("marshal", fmt.Sprint(desc), outcome, size, true)
-		modelMarshal(md, ref, size, nil, nil, true)
+		modelMarshal(md, ref, nilEnt, size, nil, nil, true)
 		return
 	}
-	modelMarshal(md, ref, size, b, merr, false)
+	modelMarshal(md, ref, nilEnt, size, b, merr, false)
 	switch rn.prop {
 	case "C17":
 		if initialized && merr != nil {
